@@ -90,11 +90,18 @@ Proof.
   destruct b; [eauto|]. apply try_null_datalink_ok.
 Qed.
 
+Lemma eth_announces_ok p m e0 e1 : 14 <= m -> exists b, eth_announces p m e0 e1 = Ok b /\ (b = true -> m <= len p).
+Proof.
+  intros Hm. unfold eth_announces. destruct (m <=? len p) eqn:E; [|exists false; split; [reflexivity|discriminate]].
+  ok_idx p 12. destruct (b2n b =? e0); [|exists false; split; [reflexivity|discriminate]].
+  ok_idx p 13. eexists; split; [reflexivity|intros; lia].
+Qed.
 Lemma ip_start_of_ok p : exists s, ip_start_of p = Ok s /\ (s = 0 \/ (s = 14 /\ 14 < len p)).
 Proof.
-  unfold ip_start_of. destruct (14 <? len p) eqn:E; [|eauto].
-  ok_idx p 12. ok_idx p 13. eexists; split; [reflexivity|].
-  destruct (_ || _); [right; split; [reflexivity|lia]|left; reflexivity].
+  unfold ip_start_of. destruct (eth_announces_ok p 34 8 0) as (v4 & -> & H4); [lia|]. cbn [bind].
+  destruct v4; [exists 14; split; [reflexivity|right; split; [reflexivity|specialize (H4 eq_refl); lia]]|].
+  destruct (eth_announces_ok p 54 134 221) as (v6 & -> & H6); [lia|]. cbn [bind].
+  destruct v6; eexists; (split; [reflexivity|]); [right; split; [reflexivity|specialize (H6 eq_refl); lia]|left; reflexivity].
 Qed.
 
 Lemma hash_source_ip_ok p : exists h, hash_source_ip p = Ok h.
